@@ -7,6 +7,9 @@ package interp
 
 import (
 	"fmt"
+	"go/ast"
+	"go/parser"
+	"go/token"
 	"go/types"
 	"path/filepath"
 	"sort"
@@ -75,6 +78,39 @@ func (i *interpreter) pathError(op, name, msg string) value {
 
 func init() {
 	reg := func(name string, f natfn) { natives[zz(name)] = f }
+	reg("MethodTypes", func(fr *frame, a []value) value {
+		src, ok := a[0].(string)
+		if !ok {
+			panic(unsupported("MethodTypes on symbolic text"))
+		}
+		fset := token.NewFileSet()
+		f, err := parser.ParseFile(fset, "src.go", src, parser.SkipObjectResolution)
+		if err != nil {
+			return []value(nil)
+		}
+		seen := map[string]bool{}
+		var names []string
+		for _, d := range f.Decls {
+			fd, ok := d.(*ast.FuncDecl)
+			if !ok || fd.Recv == nil || fd.Name.Name != a[1].(string) || len(fd.Recv.List) != 1 {
+				continue
+			}
+			t := fd.Recv.List[0].Type
+			if st, ok := t.(*ast.StarExpr); ok {
+				t = st.X
+			}
+			if id, ok := t.(*ast.Ident); ok && !seen[id.Name] {
+				seen[id.Name] = true
+				names = append(names, id.Name)
+			}
+		}
+		sort.Strings(names)
+		out := make([]value, len(names))
+		for k, n := range names {
+			out[k] = n
+		}
+		return out
+	})
 	reg("VFileData", func(fr *frame, a []value) value {
 		name := filepath.Clean(a[0].(string))
 		data, ok := a[1].(string)
